@@ -108,11 +108,13 @@ static std::string dump(const std::string& verdict) {
     for (size_t i = 0; i < pool.size(); i++) {
         DOMNode* n = pool[i];
         int t = n->getNodeType();
-        bool named = t == DOMNode::ELEMENT_NODE || t == DOMNode::PROCESSING_INSTRUCTION_NODE || t == DOMNode::ENTITY_REFERENCE_NODE;
+        bool named = t == DOMNode::ELEMENT_NODE || t == DOMNode::PROCESSING_INSTRUCTION_NODE || t == DOMNode::ENTITY_REFERENCE_NODE ||
+                     t == DOMNode::ATTRIBUTE_NODE;
+        bool nsd = t == DOMNode::ELEMENT_NODE || t == DOMNode::ATTRIBUTE_NODE;
         bool leaf = t == DOMNode::TEXT_NODE || t == DOMNode::CDATA_SECTION_NODE || t == DOMNode::COMMENT_NODE ||
                     t == DOMNode::PROCESSING_INSTRUCTION_NODE;
         if (i) out += ' ';
-        out += std::to_string(i) + ":" + std::to_string(t) + ":" + (named ? hx(n->getNodeName()) : "-") + ":" +
+        out += std::to_string(i) + ":" + std::to_string(t) + ":" + (named ? hx(n->getNodeName()) : "-") + "/" + (nsd ? hx(n->getNamespaceURI()) : "-") + ":" +
                (leaf ? hx(n->getNodeValue()) : "-") + ":" + ix(n->getOwnerDocument()) + ":" + ix(n->getParentNode()) + ":" +
                ix(n->getFirstChild()) + ":" + ix(n->getLastChild()) + ":" + ix(n->getPreviousSibling()) + ":" +
                ix(n->getNextSibling()) + ":[";
@@ -137,6 +139,7 @@ static std::string dump(const std::string& verdict) {
 }
 
 static int nat(const std::string& s) { return atoi(s.c_str()); }
+static XMLSize_t big(const std::string& s) { return (XMLSize_t)strtoull(s.c_str(), 0, 10); }
 static DOMNode* node(const std::string& s) {
     if (s == "-") return 0;
     int i = s[0] == '%' ? (int)((unsigned)atoi(s.c_str() + 1) % pool.size()) : nat(s);
@@ -161,6 +164,7 @@ static std::string doOp(const std::vector<std::string>& a) {
             case 'p': n = doc->createProcessingInstruction(nm.data(), v.data()); break;
             case 'c': n = doc->createComment(v.data()); break;
             case 'f': n = doc->createDocumentFragment(); break;
+            case 'a': n = doc->createAttribute(nm.data()); break;
             default: return "bad-op";
             }
             reg(n);
@@ -189,6 +193,15 @@ static std::string doOp(const std::vector<std::string>& a) {
             regTree(c, pool.size() + 2);
             return "n" + ix(c);
         }
+        if (o == "rn" && a.size() == 5) {
+            DOMNode* d = node(a[1]);
+            DOMNode* n = node(a[2]);
+            if (!d || !n || d->getNodeType() != DOMNode::DOCUMENT_NODE) return "skip";
+            std::vector<XMLCh> ns = unhex(a[3]), nm = unhex(a[4]);
+            DOMNode* r = ((DOMDocument*)d)->renameNode(n, a[3] == "-" ? 0 : ns.data(), nm.data());
+            reg(r);
+            return "n" + ix(r);
+        }
         if (o == "nz" && a.size() == 2) {
             if (!live(a[1])) return "skip";
             node(a[1])->normalize();
@@ -208,18 +221,18 @@ static std::string doOp(const std::vector<std::string>& a) {
             if (!cd) return "skip";
             DOMCharacterData* c = (DOMCharacterData*)n;
             if (o == "ad" && a.size() == 3) { c->appendData(unhex(a[2]).data()); return "ok"; }
-            if (o == "id" && a.size() == 4) { c->insertData(nat(a[2]), unhex(a[3]).data()); return "ok"; }
-            if (o == "dd" && a.size() == 4) { c->deleteData(nat(a[2]), nat(a[3])); return "ok"; }
-            if (o == "rd" && a.size() == 5) { c->replaceData(nat(a[2]), nat(a[3]), unhex(a[4]).data()); return "ok"; }
+            if (o == "id" && a.size() == 4) { c->insertData(big(a[2]), unhex(a[3]).data()); return "ok"; }
+            if (o == "dd" && a.size() == 4) { c->deleteData(big(a[2]), big(a[3])); return "ok"; }
+            if (o == "rd" && a.size() == 5) { c->replaceData(big(a[2]), big(a[3]), unhex(a[4]).data()); return "ok"; }
             if (o == "ss" && a.size() == 4) {
-                const XMLCh* s = c->substringData(nat(a[2]), nat(a[3]));
+                const XMLCh* s = c->substringData(big(a[2]), big(a[3]));
                 return "s" + hx(s);
             }
             return "bad-op";
         }
         if (o == "sp" && a.size() == 3) {
             if (t != DOMNode::TEXT_NODE && t != DOMNode::CDATA_SECTION_NODE) return "skip";
-            DOMText* nt = ((DOMText*)n)->splitText(nat(a[2]));
+            DOMText* nt = ((DOMText*)n)->splitText(big(a[2]));
             reg(nt);
             return "n" + ix(nt);
         }
